@@ -358,7 +358,7 @@ Proof.
       * unfold kvs_size in *. cbn [fold_right fst snd]. lia.
       * exact Hw2.
       * cbn [app]. rewrite <- Pn. apply norm_cons_congr. exact Hn.
-    + destruct (cs_cur st1) eqn:C1; [|destruct (max_read =? mtu) eqn:MM].
+    + destruct (cs_cur st1) eqn:C1; [destruct (max_read =? mtu) eqn:MM0; [discriminate E|]|destruct (max_read =? mtu) eqn:MM].
       * inversion E; subst kvs more st'. exists []. rewrite app_nil_r. cbn [app].
         split; [reflexivity|]. split; [exact Hm|]. split; [exact Hw1 | exact P].
       * (* a forced break before anything was read: skipped *)
@@ -412,7 +412,7 @@ Qed.
 
 Lemma round_loop_total fuel : forall st max_read mtu acc,
   wf_state st -> 0 <= max_read -> (Z.to_nat max_read + length (cs_queue st) < fuel)%nat ->
-  round_loop fuel st max_read mtu acc <> ROutOfFuel /\ round_loop fuel st max_read mtu acc <> RFail.
+  round_loop fuel st max_read mtu acc <> ROutOfFuel.
 Proof.
   induction fuel as [|f IH]; intros st max_read mtu acc Hw Hm Hf.
   - lia.
@@ -422,16 +422,41 @@ Proof.
     destruct r as [k v| | |]; cbn [chunk_post] in P.
     + destruct P as (_ & Psz & _). pose proof (kv_size_ge3 k v).
       apply IH; [exact Hw1 | lia | lia].
-    + destruct (cs_cur st1) eqn:C1; [split; discriminate|].
-      destruct (max_read =? mtu); [|split; discriminate].
+    + destruct (cs_cur st1) eqn:C1; [destruct (max_read =? mtu); discriminate|].
+      destruct (max_read =? mtu); [|discriminate].
       specialize (Q2 eq_refl eq_refl). apply IH; [exact Hw1 | exact Hm | lia].
-    + split; discriminate.
+    + discriminate.
+    + contradiction.
+Qed.
+
+(* the only failure: a key is pending that does not fit even an empty message of this size *)
+Lemma round_loop_fail fuel : forall st max_read mtu acc,
+  wf_state st -> 0 <= max_read ->
+  round_loop fuel st max_read mtu acc = RFail ->
+  exists st1 st2 c, wf_state st1 /\ read_chunk st1 mtu = (CTooSmall, st2) /\ cs_cur st2 = Some c.
+Proof.
+  induction fuel as [|f IH]; intros st max_read mtu acc Hw Hm E.
+  - discriminate E.
+  - cbn [round_loop] in E. destruct (read_chunk st max_read) as [r st1] eqn:Er.
+    destruct (read_chunk_spec _ _ _ _ Hw Er) as [Hw1 P].
+    destruct r as [k v| | |]; cbn [chunk_post] in P.
+    + destruct P as (_ & Psz & _). assert (Hm' : 0 <= max_read - kv_size k v) by lia. apply (IH _ _ _ _ Hw1 Hm' E).
+    + destruct (cs_cur st1) as [c|] eqn:C1.
+      * destruct (Z.eqb_spec max_read mtu) as [->|]; [|discriminate E].
+        exists st, st1, c. split; [exact Hw|]. split; [exact Er | exact C1].
+      * destruct (max_read =? mtu); [|discriminate E]. apply (IH _ _ _ _ Hw1 Hm E).
+    + discriminate E.
     + contradiction.
 Qed.
 
 Theorem round_total st mtu :
-  wf_state st -> 0 <= mtu -> round st mtu <> ROutOfFuel /\ round st mtu <> RFail.
+  wf_state st -> 0 <= mtu -> round st mtu <> ROutOfFuel.
 Proof. intros Hw Hm. unfold round. apply round_loop_total; [exact Hw | exact Hm | lia]. Qed.
+
+Theorem round_fails_only_on_unsendable_key st mtu :
+  wf_state st -> 0 <= mtu -> round st mtu = RFail ->
+  exists st1 st2 c, wf_state st1 /\ read_chunk st1 mtu = (CTooSmall, st2) /\ cs_cur st2 = Some c.
+Proof. intros Hw Hm E. unfold round in E. exact (round_loop_fail _ _ _ _ _ Hw Hm E). Qed.
 
 (* ---- Theorem 6 ---- *)
 Theorem yield_new_batch st size q :
@@ -542,14 +567,10 @@ Example ex_drain2 :
   norm [(ex_k1, ex_v1); (ex_k1, [xf4]); (ex_k2, ex_v2)] = [(ex_k1, [xf5; xf4]); (ex_k2, ex_v2)].
 Proof. split; vm_compute; reflexivity. Qed.
 
-(* Observation (liveness, not covered by the safety theorems above): a key whose overhead does not fit the whole MTU
-   makes round return an empty batch with more = false while data is still pending, and the state is a fixpoint: every
-   later round with that MTU does the same (the "malicious large key" remark in exchangeServiceInfoRound). *)
-Definition ex_stuck : cstate := mkcs (Some (mkcur (x6d :: ex_k1) ex_k1 ex_v1)) [ex_m2; ex_m3].
-Example ex_round_stuck :
-  round ex_st 10 = RRound [] false ex_stuck /\ round ex_stuck 10 = RRound [] false ex_stuck /\
-  norm (flat ex_stuck) = norm (flat ex_st).
-Proof. repeat split; vm_compute; reflexivity. Qed.
+(* A key whose overhead does not fit a whole message of the given size can never be sent: the round fails (the device's
+   sending loop returns an error since the repair of the silent drop, see DESIGN 9.4 D55). *)
+Example ex_round_unsendable : round ex_st 10 = RFail.
+Proof. vm_compute. reflexivity. Qed.
 
 Print Assumptions read_chunk_fits.
 Print Assumptions read_chunk_wf.
@@ -558,6 +579,7 @@ Print Assumptions drain_lossless.
 Print Assumptions drain_complete.
 Print Assumptions round_fits.
 Print Assumptions round_total.
+Print Assumptions round_fails_only_on_unsendable_key.
 Print Assumptions yield_round.
 
 (* ---- the message as a whole: with the 5 bytes exchangeServiceInfo reserves, every TO2.DeviceServiceInfo fits the
